@@ -166,14 +166,52 @@ def cif_quote(v: str) -> str:
     return v
 
 
-def emit_cif(atoms: List[dict], null: str = "?", extra_categories: str = "", label_seq: Optional[dict] = None) -> str:
-    """atom_site loop; `null` is the marker used for absent altloc / icode / charge / element"""
+def label_view(atoms: List[dict]) -> List[dict]:
+    """the same atoms identified the way a reader must identify them when the author items are absent:
+    number = label_seq_id as emit_cif writes it (running index per chain), no insertion code"""
+    seq, counters, out = {}, {}, []
+    for a in atoms:
+        key = (a["chain"], a["resseq"], a["icode"])
+        if key not in seq:
+            counters[a["chain"]] = counters.get(a["chain"], 0) + 1
+            seq[key] = counters[a["chain"]]
+        b = dict(a)
+        b["resseq"], b["icode"] = seq[key], ""
+        out.append(b)
+    return out
+
+
+def cif_dialect_items(dialect: Optional[dict]) -> List[str]:
+    """item list of a dialect: {'drop': [optional items left out], 'order': permutation seed or None}"""
+    items = list(CIF_ITEMS)
+    if dialect:
+        items = [it for it in items if it not in set(dialect.get("drop", []))]
+        seed = dialect.get("order")
+        if seed is not None:
+            # deterministic permutation from the seed (no RNG of our own state: a pure function of the seed)
+            keyed = sorted(range(len(items)), key=lambda k: (hash_int(seed, k), k))
+            items = [items[k] for k in keyed]
+    return items
+
+
+def hash_int(seed: int, k: int) -> int:
+    import hashlib
+
+    return int.from_bytes(hashlib.sha256(f"{seed}:{k}".encode()).digest()[:8], "big")
+
+
+def emit_cif(atoms: List[dict], null: str = "?", extra_categories: str = "", label_seq: Optional[dict] = None,
+             dialect: Optional[dict] = None) -> str:
+    """atom_site loop; `null` is the marker used for absent altloc / icode / charge / element.
+    `dialect` leaves out optional items and/or permutes the item order (mmCIF fixes neither)."""
     out = ["data_verif", "#"]
     if extra_categories:
         out.append(extra_categories.rstrip("\n"))
         out.append("#")
     out.append("loop_")
-    for it in CIF_ITEMS:
+    items = cif_dialect_items(dialect)
+    pos = [CIF_ITEMS.index(it) for it in items]
+    for it in items:
         out.append(f"_atom_site.{it}")
     # label_seq_id: running index per (chain, residue) in order of appearance, as real files do
     seq = {}
@@ -190,6 +228,7 @@ def emit_cif(atoms: List[dict], null: str = "?", extra_categories: str = "", lab
             f"{a['x']:.3f}", f"{a['y']:.3f}", f"{a['z']:.3f}", (f"{a['occ']:.2f}" if a["occ"] is not None else null), f"{a['bfac']:.2f}",
             (str(a["charge"]) if a["charge"] else null), str(a["resseq"]), a["resname"], a["chain"], a["name"], str(a["model"]),
         ]
+        vals = [vals[k] for k in pos]
         toks = []
         for v in vals:
             if v in ("?", "."):
